@@ -105,6 +105,9 @@ pub enum PlanningError {
     InvalidStartState,
     /// State space hasn't been sampled.
     UnsampledStateSpace,
+    /// A planner parameter is outside its admissible range (e.g. a goal bias that is not a
+    /// probability).
+    InvalidParameter,
 }
 impl fmt::Display for PlanningError {
     fn fmt(&self, f: &mut fmt::Formatter<'_>) -> fmt::Result {
@@ -129,6 +132,9 @@ impl fmt::Display for PlanningError {
                     f,
                     "StateSpace is not sampled. Either Tree or Roadmap is empty."
                 )
+            }
+            Self::InvalidParameter => {
+                write!(f, "A planner parameter is outside its admissible range.")
             }
         }
     }
